@@ -17,7 +17,7 @@ RULE = ("histories of 2-6 clients (threads, one proxy each, reconnecting now and
         "raising call. distinct = (history hash, server, serializer); one evaluation = one request; non-trivial = the request reached a method")
 ASSUMPTIONS = ["oneway completions are awaited (10 s watchdog, expiry = inconclusive)", "peer address compared with the client's getsockname() (TCP loopback)"]
 REQUIRED_REACH = ["oneway_batch_calls", "nested_call_replies_clean", "stream_items_context_checked", "injected_yields", "snapshots_checked", "replies_checked", "raising_calls", "oneway_calls", "batch_calls", "ping_replies", "handshake_replies", "worker_reuse_handshakes", "idless_requests", "reply_correlation_ids_checked", "refused_handshake_replies", "bare_requests", "handshake_tokens_checked"]
-SHARD_TIMEOUT = {"quick": 240, "thorough": 2800}
+SHARD_TIMEOUT = {"quick": 480, "thorough": 2800}
 OPS = ["ret", "noresp", "noresp", "rais", "rais", "ow", "batch", "batch_rais", "batch_ow", "propget", "propset", "ping", "handshake", "reconnect", "propget_rais", "badhandshake", "bare", "bare", "barepoll", "ow_rst"]
 # "ow_rst": a oneway call whose connection the client resets right after sending (the request may or may not get served)
 # "bare": a request that carries no annotation at all; "barepoll": the same, to a method that writes into its own request-annotation dict
